@@ -4,7 +4,7 @@
    Proofs/MesSweep.v ([paidl], [tu], [tbud], [wfs], [kle], [rich], [is_rho_l], [poorer]). *)
 From PB Require Import Model.MesRule Spec.MesSpec Proofs.MesSweep Proofs.MesLazy Proofs.MesWf
   Proofs.MesBinary Proofs.MesTrace Proofs.MesRefine Proofs.MesRun Proofs.MesFeasible Proofs.MesFinal
-  Proofs.MesSpecRun Proofs.MesInterp Proofs.MesSpecExec.
+  Proofs.MesSpecRun Proofs.MesInterp Proofs.MesSpecExec Proofs.MesIrrSpec Proofs.MesIterSpec.
 Open Scope Q_scope.
 
 (* M sweep_spec: on supporters sorted by budget/utility who can afford the project, the sweep of
@@ -245,10 +245,67 @@ Theorem C02_mes_model_eq_spec : forall x o,
 Proof. exact mes_model_eq_spec. Qed.
 Print Assumptions C02_mes_model_eq_spec.
 
-(* UNPROVED (S): mes_spec_perm_voters, mes_spec_scale.
-   NOT PROVED (beyond DESIGN.md's list): the analogous refinement for the irresolute model
-   (run_irr vs spec_exec_all) and for the iterated variants as a whole (every single run of the
-   loop is covered by C02_run_once_refines_spec); both are compared per run by Oracle/C02.v. *)
+(* ---- the IRRESOLUTE model and the budget-increase loop (Proofs/MesIrrSpec.v, Proofs/MesIterSpec.v) ---- *)
+
+(* the leaves of the irresolute recursion are exactly the name-sorted outcomes of the runs of the textbook
+   rule in which ANY project of the argmin set may be bought ([spec_run_any]) *)
+Theorem C02_run_irr_spec : forall P cs tb, wf_voters P -> forall fuel buds projects acc rem L,
+  Ref P cs buds projects rem -> run_irr fuel P tb buds projects acc = Some L ->
+  forall X, In X L <-> exists W, spec_run_any cs P buds rem W /\ X = sort_alloc (acc ++ W).
+Proof. exact run_irr_spec. Qed.
+Print Assumptions C02_run_irr_spec.
+
+Theorem C02_run_once_irr_spec : forall x b0 L,
+  wf_voters (mi_voters x) -> 0 <= b0 -> NoDup (mi_enum x) ->
+  (forall p, In p (mi_enum x) <-> (p < length (mi_costs x))%nat) ->
+  run_once_irr x b0 = Some L ->
+  forall X, In X L <->
+    exists W, spec_run_any (mi_costs x) (mi_voters x) (repeat b0 (length (mi_voters x))) (si_pool (spec_of x)) W /\
+              X = sort_alloc (mi_init x ++ si_zeros (spec_of x) ++ W).
+Proof. exact run_once_irr_spec. Qed.
+Print Assumptions C02_run_once_irr_spec.
+
+(* the executable irresolute spec enumerates exactly those runs, with the fuel mes_spec_all uses *)
+Theorem C02_spec_exec_all_spec : forall cs P, wf_voters P -> forall fuel b rem L,
+  SInv cs P b rem -> spec_exec_all cs P fuel b rem = Some L ->
+  forall W, In W L <-> spec_run_any cs P b rem W.
+Proof. exact spec_exec_all_spec. Qed.
+Print Assumptions C02_spec_exec_all_spec.
+
+Theorem C02_spec_exec_all_total : forall cs P fuel b rem,
+  (length rem < fuel)%nat -> spec_exec_all cs P fuel b rem <> None.
+Proof. exact spec_exec_all_total. Qed.
+Print Assumptions C02_spec_exec_all_total.
+
+(* M (irresolute): the model and the executable textbook rule return the same set of sets *)
+Theorem C02_mes_irresolute_eq_spec : forall x L,
+  wf_voters (mi_voters x) -> tcost (mi_inst x) (mi_init x) <= mi_budget x -> NoDup (mi_enum x) ->
+  (forall p, In p (mi_enum x) <-> (p < length (mi_costs x))%nat) ->
+  mes_irresolute x = Some L ->
+  exists L', mes_spec_all (spec_of x) = Some L' /\
+             forall X, In X L <-> exists Y, In Y L' /\ X = sort_alloc Y.
+Proof. exact mes_irresolute_eq_spec. Qed.
+Print Assumptions C02_mes_irresolute_eq_spec.
+
+(* M (iterated, voter_budget_increment = inc >= 0, any outer fuel): the loops of the model and of the
+   executable textbook rule take the same decisions in every pass: both return the same set (set of
+   sets), or both run out of the outer fuel ([orel]/[orel_all], Proofs/MesIterSpec.v) *)
+Theorem C02_mes_iter_eq_spec : forall x,
+  wf_voters (mi_voters x) -> NoDup (mi_enum x) -> (forall p, In p (mi_enum x) <-> (p < length (mi_costs x))%nat) ->
+  forall fuel inc, 0 <= inc -> tcost (mi_inst x) (mi_init x) <= mi_budget x ->
+  orel (mes_iter_resolute fuel x inc) (mes_spec_iter fuel (spec_of x) inc).
+Proof. exact mes_iter_eq_spec. Qed.
+Print Assumptions C02_mes_iter_eq_spec.
+
+Theorem C02_mes_iter_irresolute_eq_spec : forall x,
+  wf_voters (mi_voters x) -> NoDup (mi_enum x) -> (forall p, In p (mi_enum x) <-> (p < length (mi_costs x))%nat) ->
+  forall fuel inc, 0 <= inc -> tcost (mi_inst x) (mi_init x) <= mi_budget x ->
+  orel_all (mes_iter_irresolute fuel x inc) (mes_spec_iter_all fuel (spec_of x) inc).
+Proof. exact mes_iter_irr_eq_spec. Qed.
+Print Assumptions C02_mes_iter_irresolute_eq_spec.
+
+(* (S) mes_spec_perm_voters, mes_spec_scale: proved by the C13 development (Props/C13.v); classes vs
+   expanded voters: Props/C06mes.v. *)
 
 (* non-vacuity: a concrete run (multiplicity 2, second round with a poor and a rich supporter, one
    project left unaffordable) on which the textbook spec agrees with the model; a sweep that skips
